@@ -195,7 +195,9 @@ def conform(T, case, values, compare_hidden=None):
             return "model leaves the number model (%s), real raise %r" % (mr, rr)
         return None
     if mk_kind == "symbolic":
-        return "model: %s" % mr
+        # the concrete reading of the model could not reduce everything to numbers (it had to ask the solver):
+        # a limit of the concrete reading on this input, not a disagreement - the input is skipped
+        raise C.Unsupported("concrete reading left symbolic: %s" % (mr,))
     if mk_kind == "raise" and rk != "raise" and isinstance(mr, (TypeError, AttributeError, NotImplementedError, NameError)):
         # a type-confusion error in the model run that the real run does not have: an operation on a model
         # object that Python could not resolve - a gap of the model, not a disagreement about the code
@@ -247,7 +249,7 @@ def _compare_arrays(ml, rl, compare_hidden):
             continue
         a, b = md[i], rd[i]
         if a == "symbolic":
-            return "data[%d] symbolic in the model" % i
+            raise C.Unsupported("concrete reading left data[%d] symbolic" % i)
         if (a is None) != (b is None) or (a is not None and Fraction(a) != Fraction(b)):
             return "data[%d]: model %s real %s" % (i, a, b)
     return None
